@@ -122,8 +122,8 @@ func managerCase(c *h.Case, i int) {
 	// short concurrent histories, exact results
 	nG := []int{2, 4, 8, 16}[rng.Intn(4)]
 	per := 2 + rng.Intn(3)
-	if nG*per > 36 {
-		per = 36 / nG
+	if nG*per > 28 {
+		per = 28 / nG
 	}
 	type step struct {
 		Kind string
@@ -149,6 +149,12 @@ func managerCase(c *h.Case, i int) {
 				st = step{Kind: "release", Port: rng.Intn(4)}
 			}
 			plan[g] = append(plan[g], st)
+		}
+		if rng.Intn(3) == 0 {
+			// remembered-port episode: acquire 0, release it, a refused acquire under the same name, acquire 0 again
+			n := fmt.Sprintf("n%d", g)
+			plan[g] = append(plan[g], step{Kind: "acquire", Name: n}, step{Kind: "release", Port: -1},
+				step{Kind: "acquire", Name: n, Port: outside[rng.Intn(len(outside))]}, step{Kind: "acquire", Name: n})
 		}
 	}
 	c.Data["mgr_plan"] = plan
@@ -177,7 +183,10 @@ func managerCase(c *h.Case, i int) {
 					if len(held) == 0 {
 						continue
 					}
-					k := st.Port % len(held)
+					k := len(held) - 1 // -1: the port acquired last
+					if st.Port >= 0 {
+						k = st.Port % len(held)
+					}
 					in = mgrIn{Kind: "release", Port: held[k]}
 					m.Release(held[k])
 					held = append(held[:k], held[k+1:]...)
